@@ -38,6 +38,8 @@ pub struct Work {
     pub dedup: bool,
     /// every simulated input stream fails hard at this read call (fault-injecting works only)
     pub hard_err_call: Option<u64>,
+    /// the creator is dropped without finalize after the last insertion
+    pub abandon: bool,
 }
 
 pub fn gen_contents(rng: &mut Rng, n: usize, max_len: usize, srcs: &[SrcKind], comp: Comp) -> Vec<ContentSpec> {
@@ -157,6 +159,14 @@ pub fn create_and_read_back(work: &Work, report: &mut BodyReport) {
                 return;
             }
         }
+    }
+    if work.abandon {
+        // the application gives up (an error of its own, an early return): the creator is dropped
+        // without finalize while workers and writer may still be busy. Nothing is asked of the
+        // file; the drop must return (every task blocked forever is a deadlock for the scheduler)
+        drop(adder);
+        report.notes.insert("creator_dropped_without_finalize".into(), 1);
+        return;
     }
     let creator = match adder {
         Adder::Plain(p) => p,
@@ -496,8 +506,10 @@ impl TCheck for C08 {
             scratch: dir.clone(),
             dedup: false,
             hard_err_call,
+            // one work in eight (never the giants)
+            abandon: work % 8 == 3 && !(big || oversize || giant_one || giant_two),
         });
-        let desc = json!({"giant_above_128_MiB": giant_one, "two_giants_above_256_MiB_one_worker": giant_two, "content_larger_than_the_whole_dispatch_queue": oversize, "one_cpu_host_no_worker_knob": one_cpu, "run_of_empty_compressible_contents": empty_run, "big_incompressible_content": big, "hard_input_error_at_read_call": hard_err_call, "comp": comp.name(), "contents": w.contents.iter().map(|c| format!("{}{}{}", c.bytes.len(), match c.hint {Hint::Yes=>"Y",Hint::No=>"N",Hint::Detect=>"D"}, match c.src {SrcKind::Cursor=>"c",SrcKind::File=>"f",SrcKind::FileRange=>"r",SrcKind::Sim=>"s",SrcKind::FilePeeked=>"p",SrcKind::FileRangeToEnd=>"e",SrcKind::SharedArchive=>"a",SrcKind::FileReplaced=>"x"})).collect::<Vec<_>>(),
+        let desc = json!({"creator_dropped_without_finalize": w.abandon, "giant_above_128_MiB": giant_one, "two_giants_above_256_MiB_one_worker": giant_two, "content_larger_than_the_whole_dispatch_queue": oversize, "one_cpu_host_no_worker_knob": one_cpu, "run_of_empty_compressible_contents": empty_run, "big_incompressible_content": big, "hard_input_error_at_read_call": hard_err_call, "comp": comp.name(), "contents": w.contents.iter().map(|c| format!("{}{}{}", c.bytes.len(), match c.hint {Hint::Yes=>"Y",Hint::No=>"N",Hint::Detect=>"D"}, match c.src {SrcKind::Cursor=>"c",SrcKind::File=>"f",SrcKind::FileRange=>"r",SrcKind::Sim=>"s",SrcKind::FilePeeked=>"p",SrcKind::FileRangeToEnd=>"e",SrcKind::SharedArchive=>"a",SrcKind::FileReplaced=>"x"})).collect::<Vec<_>>(),
                           "workers": workers, "cluster_max_blobs": max_blobs, "cluster_max_size": max_size});
         let w2 = Arc::clone(&w);
         Prepared {
